@@ -62,7 +62,7 @@ class Creators:
       key = gfa_line.name
       if gfapy.is_placeholder(key):
         key = id(gfa_line)
-      elif key.isdigit():
+      elif isinstance(key, str) and key.isdigit() and key.isascii():
         keynum = int(key)
         if keynum > self._max_int_name:
           self._max_int_name = keynum
@@ -131,7 +131,8 @@ class Creators:
           "GFA specification version {} not supported".format(gfa_line.VN))
       if gfa_line.VN:
         self._line_queue = self.__parsed_line_queue(
-            {"1.0": "gfa1", "2.0": "gfa2"}.get(gfa_line.VN))
+            "gfa1" if gfa_line.VN == "1.0" else
+            "gfa2" if gfa_line.VN == "2.0" else None)
       self.header._merge(gfa_line)
       if gfa_line.VN:
         if gfa_line.VN == "1.0":
